@@ -4,6 +4,7 @@
   objects outside the translated set (hidden state `Ext`); `createArchetypeNode` is a state-threading parameter.
 -/
 import ArcheProofs.Props.C01_ExchangeGen64
+import ArcheProofs.Props.C16_Registry64
 
 namespace Arche.Props.C01_FindGen64
 open ArcheGen ArcheGen.P64 Arche Arche.Props
@@ -273,6 +274,342 @@ theorem find_frame (hN : NodeFrame createNodeF) (w w' : P64.World) (start : Opti
   · simp only [Option.some.injEq, Prod.mk.injEq] at hj
     rw [← hj.1]; exact hw2
 
+/-! ### the graph: neighbour edges stay sound, and the walk ends in the node of the exchanged mask -/
+
+/-- the mask with one member toggled -/
+def flip (m : M64.Mask) (id : BitVec 8) : M64.Mask := m.Set id (!m.Get id)
+
+theorem flip_flip (m : M64.Mask) (id : BitVec 8) (hid : id.toNat < 64) : flip (flip m id) id = m := by
+  apply C16_Registry64.mask_ext
+  intro j
+  unfold flip
+  rw [C04.B64.set_spec _ _ _ _ hid, C04.B64.get_eq_mem _ _ hid, C04.B64.get_eq_mem _ _ hid, C04.B64.set_spec _ _ _ _ hid, C04.B64.set_spec _ _ _ _ hid]
+  by_cases hj : j = id.toNat
+  · subst hj; simp
+  · simp [hj]
+
+theorem set_false_eq_flip (m : M64.Mask) (id : BitVec 8) (h : m.Get id = true) : m.Set id false = flip m id := by
+  unfold flip; rw [h]; rfl
+theorem set_true_eq_flip (m : M64.Mask) (id : BitVec 8) (h : m.Get id = false) : m.Set id true = flip m id := by
+  unfold flip; rw [h]; rfl
+
+/-- every neighbour edge labelled `id` joins two nodes whose masks differ in exactly the member `id` -/
+def EdgeInv (ext : Ext) : Prop :=
+  ∀ n id m, nodeNeighborGetF ext n id = (m, true) → nodeMaskF ext m = flip (nodeMaskF ext n) id
+
+/-- edges exist between known nodes only -/
+def Closed (Known : Ext → Option Nat → Prop) (ext : Ext) : Prop :=
+  ∀ n id m, nodeNeighborGetF ext n id = (m, true) → Known ext n ∧ Known ext m
+
+/-- what is assumed about the members of graph nodes that the walk uses (`neighbors.Get/Set`, `Mask`), about
+    `createArchetypeNode` and about the node list: they behave like maps, a created node is new, carries the requested
+    mask and disturbs no existing node; the nodes in the world's list are known -/
+structure GraphOk (Known : Ext → Option Nat → Prop) : Prop where
+  set_mask : ∀ ext n id m k, nodeMaskF (nodeNeighborSetF ext n id m).1 k = nodeMaskF ext k
+  set_get : ∀ ext n id m k j, n ≠ none →
+    nodeNeighborGetF (nodeNeighborSetF ext n id m).1 k j = if k = n ∧ j = id then (m, true) else nodeNeighborGetF ext k j
+  set_known : ∀ ext n id m k, Known (nodeNeighborSetF ext n id m).1 k ↔ Known ext k
+  new_mask : ∀ ext w mask r hr, nodeMaskF (createNodeF ext w mask r hr).1 (createNodeF ext w mask r hr).2.2 = mask
+  new_known : ∀ ext w mask r hr k, Known (createNodeF ext w mask r hr).1 k ↔ (Known ext k ∨ k = (createNodeF ext w mask r hr).2.2)
+  new_keeps : ∀ ext w mask r hr k, Known ext k → nodeMaskF (createNodeF ext w mask r hr).1 k = nodeMaskF ext k
+  new_inv : ∀ ext w mask r hr, EdgeInv nodeMaskF nodeNeighborGetF ext → Closed nodeNeighborGetF Known ext →
+    EdgeInv nodeMaskF nodeNeighborGetF (createNodeF ext w mask r hr).1 ∧ Closed nodeNeighborGetF Known (createNodeF ext w mask r hr).1
+  paged_known : ∀ ext (w : P64.World) i, i < (pagedLenF ext w.nodes).toInt.toNat → Known ext (pagedGetF ext w.nodes (BitVec.ofNat 32 i))
+
+/-- the invariant of the walk: sound and closed edges, and the current node is a known node carrying the current mask -/
+def WalkInv (Known : Ext → Option Nat → Prop) (s : P64.World × Ext × M64.Mask × BitVec 8 × Bool × Option Nat) : Prop :=
+  EdgeInv nodeMaskF nodeNeighborGetF s.2.1 ∧ Closed nodeNeighborGetF Known s.2.1 ∧ Known s.2.1 s.2.2.2.2.2 ∧
+    nodeMaskF s.2.1 s.2.2.2.2.2 = s.2.2.1
+
+theorem walkStep_spec (Known : Ext → Option Nat → Prop)
+    (G : GraphOk createNodeF nodeMaskF nodeNeighborGetF nodeNeighborSetF pagedGetF pagedLenF Known)
+    (w : P64.World) (ext : Ext) (m0 mask : M64.Mask) (rel : BitVec 8) (hasRel : Bool)
+    (curr : Option Nat) (id : BitVec 8) (s' : P64.World × Ext × M64.Mask × BitVec 8 × Bool × Option Nat)
+    (hE : EdgeInv nodeMaskF nodeNeighborGetF ext) (hC : Closed nodeNeighborGetF Known ext) (hK : Known ext curr)
+    (hM : nodeMaskF ext curr = m0) (hmask : mask = flip m0 id) (hid : id.toNat < 64)
+    (h : walkStep createNodeF nodeMaskF nodeNeighborGetF nodeNeighborSetF pagedGetF pagedLenF w ext mask rel hasRel curr id = some s') :
+    WalkInv nodeMaskF nodeNeighborGetF Known s' ∧ s'.2.2.1 = mask ∧ s'.2.2.2.1 = rel ∧ s'.2.2.2.2.1 = hasRel := by
+  unfold walkStep at h
+  split at h
+  · rename_i hok
+    simp only [Option.some.injEq] at h
+    subst h
+    have hedge : nodeNeighborGetF ext curr id = ((nodeNeighborGetF ext curr id).1, true) := by
+      rw [← hok]
+    refine ⟨⟨hE, hC, (hC _ _ _ hedge).2, ?_⟩, rfl, rfl, rfl⟩
+    show nodeMaskF ext (nodeNeighborGetF ext curr id).1 = mask
+    rw [hE _ _ _ hedge, hM, hmask]
+  · obtain ⟨⟨w2, e2, n2, k2⟩, hslow, hq⟩ := Option.bind_eq_some_iff.mp h
+    clear h; have h := hq; clear hq
+    obtain ⟨n2v, hn2, hq⟩ := Option.bind_eq_some_iff.mp h
+    clear h; have h := hq; clear hq
+    obtain ⟨cv, hcv, hq⟩ := Option.bind_eq_some_iff.mp h
+    clear h; have h := hq; clear hq
+    simp only [Option.some.injEq] at h
+    subst h
+    dsimp only at hn2 ⊢
+    -- what the slow path returned
+    have hs2 : EdgeInv nodeMaskF nodeNeighborGetF e2 ∧ Closed nodeNeighborGetF Known e2 ∧ Known e2 n2 ∧ nodeMaskF e2 n2 = mask ∧
+        Known e2 curr ∧ nodeMaskF e2 curr = m0 := by
+      unfold P64.World.findOrCreateArchetypeSlow at hslow
+      simp only [Option.bind_eq_bind, pure] at hslow
+      obtain ⟨⟨w1, e1, n1, k1⟩, hs, hq⟩ := Option.bind_eq_some_iff.mp hslow
+      obtain ⟨hw, he, hfound, _⟩ := findSlow_spec nodeMaskF pagedGetF pagedLenF _ _ _ _ _ _ _ hs
+      subst hw; subst he
+      dsimp only at hq
+      split at hq
+      · rename_i hk1
+        simp only [Option.some.injEq, Prod.mk.injEq] at hq
+        obtain ⟨_, he, hn, _⟩ := hq
+        subst he; subst hn
+        obtain ⟨_, hm, i, hi, hni⟩ := hfound hk1
+        refine ⟨hE, hC, ?_, hm, hK, hM⟩
+        rw [hni]; exact G.paged_known _ _ _ hi
+      · simp only [Option.some.injEq, Prod.mk.injEq] at hq
+        obtain ⟨_, he, hn, _⟩ := hq
+        subst he; subst hn
+        obtain ⟨hE', hC'⟩ := G.new_inv e1 w1 mask rel hasRel hE hC
+        refine ⟨hE', hC', (G.new_known _ _ _ _ _ _).mpr (Or.inr rfl), G.new_mask _ _ _ _ _, (G.new_known _ _ _ _ _ _).mpr (Or.inl hK), ?_⟩
+        rw [G.new_keeps _ _ _ _ _ _ hK]; exact hM
+    obtain ⟨hE2, hC2, hKn, hMn, hKc, hMc⟩ := hs2
+    have hn2ne : n2 ≠ none := by rw [hn2]; simp
+    have hcne : curr ≠ none := by rw [hcv]; simp
+    -- masks, edges and known nodes after the two links
+    have hmask3 : ∀ k, nodeMaskF (nodeNeighborSetF (nodeNeighborSetF e2 n2 id curr).1 curr id n2).1 k = nodeMaskF e2 k := by
+      intro k; rw [G.set_mask, G.set_mask]
+    have hknown3 : ∀ k, Known (nodeNeighborSetF (nodeNeighborSetF e2 n2 id curr).1 curr id n2).1 k ↔ Known e2 k := by
+      intro k; rw [G.set_known, G.set_known]
+    have hget3 : ∀ k j, nodeNeighborGetF (nodeNeighborSetF (nodeNeighborSetF e2 n2 id curr).1 curr id n2).1 k j =
+        if k = curr ∧ j = id then (n2, true) else if k = n2 ∧ j = id then (curr, true) else nodeNeighborGetF e2 k j := by
+      intro k j; rw [G.set_get _ _ _ _ _ _ hcne, G.set_get _ _ _ _ _ _ hn2ne]
+    refine ⟨⟨?_, ?_, (hknown3 _).mpr hKn, ?_⟩, rfl, rfl, rfl⟩
+    · intro n j m hedge
+      rw [hget3] at hedge
+      rw [hmask3, hmask3]
+      split at hedge
+      · rename_i hc
+        simp only [Prod.mk.injEq, and_true] at hedge
+        rw [← hedge, hc.1, hc.2, hMn, hMc, hmask]
+      · split at hedge
+        · rename_i hc
+          simp only [Prod.mk.injEq, and_true] at hedge
+          rw [← hedge, hc.1, hc.2, hMn, hMc, hmask, flip_flip _ _ hid]
+        · exact hE2 _ _ _ hedge
+    · intro n j m hedge
+      rw [hget3] at hedge
+      rw [hknown3, hknown3]
+      split at hedge
+      · rename_i hc
+        simp only [Prod.mk.injEq, and_true] at hedge
+        rw [← hedge, hc.1]; exact ⟨hKc, hKn⟩
+      · split at hedge
+        · rename_i hc
+          simp only [Prod.mk.injEq, and_true] at hedge
+          rw [← hedge, hc.1]; exact ⟨hKn, hKc⟩
+        · exact hC2 _ _ _ hedge
+    · show nodeMaskF _ n2 = mask
+      rw [hmask3]; exact hMn
+
+abbrev WSt (Ext : Type) := P64.World × Ext × M64.Mask × BitVec 8 × Bool × Option Nat
+
+/-- the body of the loop over the removed ids, as the translator emits it -/
+def remBody (st : WSt Ext) (id : BitVec 8) : Option (WSt Ext) :=
+  (if st.1.registry.IsRelation.Get id = true then
+      some (st.1, st.2.1, st.2.2.1.Set id false, (default : BitVec 8), false, st.2.2.2.2.2)
+    else some (st.1, st.2.1, st.2.2.1.Set id false, st.2.2.2.1, st.2.2.2.2.1, st.2.2.2.2.2)).bind fun x =>
+    x.2.2.2.2.2.bind fun _ =>
+      (walkStep createNodeF nodeMaskF nodeNeighborGetF nodeNeighborSetF pagedGetF pagedLenF x.1 x.2.1 x.2.2.1 x.2.2.2.1 x.2.2.2.2.1 x.2.2.2.2.2 id).bind
+        fun y => some (y.1, y.2.1, y.2.2.1, y.2.2.2.1, y.2.2.2.2.1, y.2.2.2.2.2)
+
+/-- the body of the loop over the added ids -/
+def addBody (start : Option Nat) (st : WSt Ext) (id : BitVec 8) : Option (WSt Ext) :=
+  if st.2.2.1.Get id = true then none
+  else start.bind fun _ =>
+    if (archMaskF st.2.1 start).Get id = true then none
+    else if st.1.registry.IsRelation.Get id = true then
+      if st.2.2.2.2.1 = true then none
+      else st.2.2.2.2.2.bind fun _ =>
+        (walkStep createNodeF nodeMaskF nodeNeighborGetF nodeNeighborSetF pagedGetF pagedLenF st.1 st.2.1 (st.2.2.1.Set id true) id true st.2.2.2.2.2 id).bind
+          fun y => some (y.1, y.2.1, y.2.2.1, y.2.2.2.1, y.2.2.2.2.1, y.2.2.2.2.2)
+    else st.2.2.2.2.2.bind fun _ =>
+      (walkStep createNodeF nodeMaskF nodeNeighborGetF nodeNeighborSetF pagedGetF pagedLenF st.1 st.2.1 (st.2.2.1.Set id true) st.2.2.2.1 st.2.2.2.2.1 st.2.2.2.2.2 id).bind
+        fun y => some (y.1, y.2.1, y.2.2.1, y.2.2.2.1, y.2.2.2.2.1, y.2.2.2.2.2)
+
+theorem remBody_spec (Known : Ext → Option Nat → Prop)
+    (G : GraphOk createNodeF nodeMaskF nodeNeighborGetF nodeNeighborSetF pagedGetF pagedLenF Known)
+    (st st' : WSt Ext) (id : BitVec 8) (hI : WalkInv nodeMaskF nodeNeighborGetF Known st) (hid : st.2.2.1.Get id = true) (hlt : id.toNat < 64)
+    (h : remBody createNodeF nodeMaskF nodeNeighborGetF nodeNeighborSetF pagedGetF pagedLenF st id = some st') :
+    WalkInv nodeMaskF nodeNeighborGetF Known st' ∧ st'.2.2.1 = st.2.2.1.Set id false := by
+  obtain ⟨sw, se, sm, sr, sh, sc⟩ := st
+  obtain ⟨hE, hC, hK, hM⟩ := hI
+  unfold remBody at h
+  obtain ⟨⟨xw, xe, xm, xr, xh, xc⟩, hx, hq⟩ := Option.bind_eq_some_iff.mp h
+  clear h; have h := hq; clear hq
+  have hx' : xe = se ∧ xm = sm.Set id false ∧ xc = sc := by
+    split at hx <;> (simp only [Option.some.injEq, Prod.mk.injEq] at hx; exact ⟨hx.2.1.symm, hx.2.2.1.symm, hx.2.2.2.2.2.symm⟩)
+  obtain ⟨h1, h2, h3⟩ := hx'
+  subst h1; subst h2; subst h3
+  obtain ⟨_, _, hq⟩ := Option.bind_eq_some_iff.mp h
+  clear h; have h := hq; clear hq
+  obtain ⟨y, hy, hq⟩ := Option.bind_eq_some_iff.mp h
+  have hys : y = st' := by simpa using hq
+  subst hys
+  dsimp only at hy hid hM hK hE hC
+  obtain ⟨hI', hm', _, _⟩ := walkStep_spec createNodeF nodeMaskF nodeNeighborGetF nodeNeighborSetF pagedGetF pagedLenF Known G
+    _ _ sm _ _ _ _ _ _ hE hC hK hM (set_false_eq_flip sm id hid) hlt hy
+  exact ⟨hI', hm'⟩
+
+theorem addBody_spec (Known : Ext → Option Nat → Prop)
+    (G : GraphOk createNodeF nodeMaskF nodeNeighborGetF nodeNeighborSetF pagedGetF pagedLenF Known) (start : Option Nat)
+    (st st' : WSt Ext) (id : BitVec 8) (hI : WalkInv nodeMaskF nodeNeighborGetF Known st) (hlt : id.toNat < 64)
+    (h : addBody archMaskF createNodeF nodeMaskF nodeNeighborGetF nodeNeighborSetF pagedGetF pagedLenF start st id = some st') :
+    WalkInv nodeMaskF nodeNeighborGetF Known st' ∧ st'.2.2.1 = st.2.2.1.Set id true ∧ st.2.2.1.Get id = false := by
+  obtain ⟨sw, se, sm, sr, sh, sc⟩ := st
+  obtain ⟨hE, hC, hK, hM⟩ := hI
+  unfold addBody at h
+  dsimp only at h hM hK hE hC ⊢
+  split at h
+  · cases h
+  rename_i hget
+  have hget' : sm.Get id = false := by simpa using hget
+  obtain ⟨_, _, hq⟩ := Option.bind_eq_some_iff.mp h
+  clear h; have h := hq; clear hq
+  split at h
+  · cases h
+  split at h
+  · split at h
+    · cases h
+    obtain ⟨_, _, hq⟩ := Option.bind_eq_some_iff.mp h
+    clear h; have h := hq; clear hq
+    obtain ⟨y, hy, hq⟩ := Option.bind_eq_some_iff.mp h
+    have hys : y = st' := by simpa using hq
+    subst hys
+    obtain ⟨hI', hm', _, _⟩ := walkStep_spec createNodeF nodeMaskF nodeNeighborGetF nodeNeighborSetF pagedGetF pagedLenF Known G
+      _ _ sm _ _ _ _ _ _ hE hC hK hM (set_true_eq_flip sm id hget') hlt hy
+    exact ⟨hI', hm', hget'⟩
+  · obtain ⟨_, _, hq⟩ := Option.bind_eq_some_iff.mp h
+    clear h; have h := hq; clear hq
+    obtain ⟨y, hy, hq⟩ := Option.bind_eq_some_iff.mp h
+    have hys : y = st' := by simpa using hq
+    subst hys
+    obtain ⟨hI', hm', _, _⟩ := walkStep_spec createNodeF nodeMaskF nodeNeighborGetF nodeNeighborSetF pagedGetF pagedLenF Known G
+      _ _ sm _ _ _ _ _ _ hE hC hK hM (set_true_eq_flip sm id hget') hlt hy
+    exact ⟨hI', hm', hget'⟩
+
+theorem get_set_ne (m : M64.Mask) (a b : BitVec 8) (v : Bool) (h : a.toNat ≠ b.toNat) (ha : a.toNat < 64) (hb : b.toNat < 64) :
+    (m.Set a v).Get b = m.Get b := by
+  rw [C04.B64.get_eq_mem _ _ hb, C04.B64.get_eq_mem _ _ hb, C04.B64.set_spec _ _ _ _ ha]
+  simp [Ne.symm h]
+
+theorem remFold_spec (Known : Ext → Option Nat → Prop)
+    (G : GraphOk createNodeF nodeMaskF nodeNeighborGetF nodeNeighborSetF pagedGetF pagedLenF Known)
+    (l : List (BitVec 8)) (st st' : WSt Ext) (hI : WalkInv nodeMaskF nodeNeighborGetF Known st)
+    (hnd : (l.map (·.toNat)).Nodup) (hin : ∀ c ∈ l, st.2.2.1.Get c = true) (hlt : ∀ c ∈ l, c.toNat < 64)
+    (h : l.foldlM (remBody createNodeF nodeMaskF nodeNeighborGetF nodeNeighborSetF pagedGetF pagedLenF) st = some st') :
+    WalkInv nodeMaskF nodeNeighborGetF Known st' ∧ st'.2.2.1 = l.foldl (fun m c => m.Set c false) st.2.2.1 := by
+  induction l generalizing st with
+  | nil => simp only [List.foldlM_nil, pure, Option.some.injEq] at h; subst h; exact ⟨hI, rfl⟩
+  | cons c l ih =>
+    rw [List.foldlM_cons] at h
+    obtain ⟨s1, hs1, hq⟩ := Option.bind_eq_some_iff.mp h
+    obtain ⟨hI1, hm1⟩ := remBody_spec createNodeF nodeMaskF nodeNeighborGetF nodeNeighborSetF pagedGetF pagedLenF Known G _ _ _ hI
+      (hin c List.mem_cons_self) (hlt c List.mem_cons_self) hs1
+    have hnd' := List.nodup_cons.mp (by simpa using hnd : (c.toNat :: l.map (·.toNat)).Nodup)
+    have := ih s1 hI1 hnd'.2 (by
+      intro c' hc'
+      rw [hm1, get_set_ne _ _ _ _ (by
+        intro heq; exact hnd'.1 (List.mem_map.mpr ⟨c', hc', heq.symm⟩)) (hlt c List.mem_cons_self) (hlt c' (List.mem_cons_of_mem _ hc'))]
+      exact hin c' (List.mem_cons_of_mem _ hc')) (fun c' hc' => hlt c' (List.mem_cons_of_mem _ hc')) hq
+    rw [List.foldl_cons, ← hm1]
+    exact this
+
+theorem addFold_spec (Known : Ext → Option Nat → Prop)
+    (G : GraphOk createNodeF nodeMaskF nodeNeighborGetF nodeNeighborSetF pagedGetF pagedLenF Known) (start : Option Nat)
+    (l : List (BitVec 8)) (st st' : WSt Ext) (hI : WalkInv nodeMaskF nodeNeighborGetF Known st) (hlt : ∀ c ∈ l, c.toNat < 64)
+    (h : l.foldlM (addBody archMaskF createNodeF nodeMaskF nodeNeighborGetF nodeNeighborSetF pagedGetF pagedLenF start) st = some st') :
+    WalkInv nodeMaskF nodeNeighborGetF Known st' ∧ st'.2.2.1 = l.foldl (fun m c => m.Set c true) st.2.2.1 := by
+  induction l generalizing st with
+  | nil => simp only [List.foldlM_nil, pure, Option.some.injEq] at h; subst h; exact ⟨hI, rfl⟩
+  | cons c l ih =>
+    rw [List.foldlM_cons] at h
+    obtain ⟨s1, hs1, hq⟩ := Option.bind_eq_some_iff.mp h
+    obtain ⟨hI1, hm1, _⟩ := addBody_spec archMaskF createNodeF nodeMaskF nodeNeighborGetF nodeNeighborSetF pagedGetF pagedLenF Known G _ _ _ _ hI (hlt c List.mem_cons_self) hs1
+    have := ih s1 hI1 (fun c' hc' => hlt c' (List.mem_cons_of_mem _ hc')) hq
+    rw [List.foldl_cons, ← hm1]
+    exact this
+
+/-- **the graph walk is correct**: from a start table whose node is known and carries the table's mask, in a graph with
+    sound and closed edges, removing pairwise different present ids (all ids below 64, the limit of this build) and adding ids (the walk itself refuses ids that are
+    present), a successful `findOrCreateArchetype` ends at a known node whose mask is `(mask \ rem) ∪ add` — the mask
+    `getExchangeMask` computes — with all edges still sound and closed; the table it returns is the one that node's
+    `GetArchetype(target)` found, or the one `createArchetype` made for that node and target -/
+theorem find_graph (Known : Ext → Option Nat → Prop)
+    (G : GraphOk createNodeF nodeMaskF nodeNeighborGetF nodeNeighborSetF pagedGetF pagedLenF Known)
+    (w w' : P64.World) (start : Option Nat) (add rem : GoSlice (BitVec 8)) (target : P64.Entity) (ext ext' : Ext) (r : Option Nat)
+    (hE : EdgeInv nodeMaskF nodeNeighborGetF ext) (hC : Closed nodeNeighborGetF Known ext)
+    (hK : Known ext (archNodeF ext start)) (hM : nodeMaskF ext (archNodeF ext start) = archMaskF ext start)
+    (hnd : (rem.arr.toList.map (·.toNat)).Nodup) (hin : ∀ c ∈ rem.arr.toList, (archMaskF ext start).Get c = true)
+    (hltr : ∀ c ∈ rem.arr.toList, c.toNat < 64) (hlta : ∀ c ∈ add.arr.toList, c.toNat < 64)
+    (h : P64.World.findOrCreateArchetype archHasRelCompF archHasRelationF archInitF archMaskF archNodeF archRelCompF archTargetF
+          createNodeF matchesF nodeCreateArchetypeF nodeGetArchetypeF nodeHasRelationF nodeMaskF nodeNeighborGetF nodeNeighborSetF
+          nodeSetArchetypeF pagedAddF pagedGetF pagedLenF relationTargetF w start add rem target ext = some (w', ext', r)) :
+    ∃ (w2 : P64.World) (e2 : Ext) (node : Option Nat),
+      EdgeInv nodeMaskF nodeNeighborGetF e2 ∧ Closed nodeNeighborGetF Known e2 ∧ Known e2 node ∧
+      nodeMaskF e2 node = add.arr.toList.foldl (fun m c => m.Set c true) (rem.arr.toList.foldl (fun m c => m.Set c false) (archMaskF ext start)) ∧
+      ((nodeGetArchetypeF e2 node target = (r, true) ∧ ext' = e2 ∧ w' = w2) ∨
+       ((nodeGetArchetypeF e2 node target).2 = false ∧
+        P64.World.createArchetype archHasRelationF archInitF archMaskF archTargetF matchesF nodeCreateArchetypeF nodeHasRelationF
+          nodeSetArchetypeF pagedAddF pagedGetF pagedLenF relationTargetF w2 node target true e2 = some (w', ext', r))) := by
+  unfold P64.World.findOrCreateArchetype at h
+  simp only [Option.bind_eq_bind, pure] at h
+  obtain ⟨_, _, hq⟩ := Option.bind_eq_some_iff.mp h
+  clear h; have h := hq; clear hq
+  obtain ⟨_, _, hq⟩ := Option.bind_eq_some_iff.mp h
+  clear h; have h := hq; clear hq
+  obtain ⟨_, _, hq⟩ := Option.bind_eq_some_iff.mp h
+  clear h; have h := hq; clear hq
+  obtain ⟨_, _, hq⟩ := Option.bind_eq_some_iff.mp h
+  clear h; have h := hq; clear hq
+  obtain ⟨s1, hrem, hq⟩ := Option.bind_eq_some_iff.mp h
+  clear h; have h := hq; clear hq
+  have hrem' : rem.arr.toList.foldlM (remBody createNodeF nodeMaskF nodeNeighborGetF nodeNeighborSetF pagedGetF pagedLenF)
+      ((w, ext, archMaskF ext start, archRelCompF ext start, archHasRelCompF ext start, archNodeF ext start) : WSt Ext) = some s1 := by
+    rw [← C01_ExchangeGen64.foldlM_range_get]; exact hrem
+  obtain ⟨hI1, hm1⟩ := remFold_spec createNodeF nodeMaskF nodeNeighborGetF nodeNeighborSetF pagedGetF pagedLenF Known G _ _ _
+    ⟨hE, hC, hK, hM⟩ hnd hin hltr hrem'
+  obtain ⟨s2, hadd, hq⟩ := Option.bind_eq_some_iff.mp h
+  clear h; have h := hq; clear hq
+  have hadd' : add.arr.toList.foldlM (addBody archMaskF createNodeF nodeMaskF nodeNeighborGetF nodeNeighborSetF pagedGetF pagedLenF start) s1 = some s2 := by
+    rw [← C01_ExchangeGen64.foldlM_range_get]; exact hadd
+  obtain ⟨hI2, hm2⟩ := addFold_spec archMaskF createNodeF nodeMaskF nodeNeighborGetF nodeNeighborSetF pagedGetF pagedLenF Known G _ _ _ _ hI1 hlta hadd'
+  obtain ⟨w2, e2, m2, r2, hr2, c2⟩ := s2
+  obtain ⟨hE2, hC2, hK2, hM2⟩ := hI2
+  dsimp only at h hm2 hE2 hC2 hK2 hM2
+  obtain ⟨_, _, hq⟩ := Option.bind_eq_some_iff.mp h
+  clear h; have h := hq; clear hq
+  obtain ⟨⟨w3, e3, m3, r3, hr3, c3, a3⟩, hj, hq⟩ := Option.bind_eq_some_iff.mp h
+  clear h; have h := hq; clear hq
+  simp only [Option.some.injEq, Prod.mk.injEq] at h
+  obtain ⟨hw', he', ha'⟩ := h
+  subst hw'; subst he'; subst ha'
+  refine ⟨w2, e2, c2, hE2, hC2, hK2, ?_, ?_⟩
+  · rw [hM2, hm2, hm1]
+  · split at hj
+    · rename_i hnot
+      obtain ⟨⟨wc, ec, ac⟩, hcreate, hq⟩ := Option.bind_eq_some_iff.mp hj
+      simp only [Option.some.injEq, Prod.mk.injEq] at hq
+      obtain ⟨h1, h2, _, _, _, _, h7⟩ := hq
+      subst h1; subst h2; subst h7
+      right
+      exact ⟨by simpa using hnot, hcreate⟩
+    · rename_i hnot
+      simp only [Option.some.injEq, Prod.mk.injEq] at hj
+      obtain ⟨h1, h2, _, _, _, _, h7⟩ := hj
+      subst h1; subst h2; subst h7
+      left
+      have hk : (nodeGetArchetypeF e2 c2 target).2 = true := by simpa using hnot
+      exact ⟨by rw [← hk], rfl, rfl⟩
+
 /-- the regenerated walk as the state-threading function the callers (`exchangeNoNotify`, `NewEntity`,
     `newEntitiesNoNotify`) take as a parameter; a panicking walk is mapped to "nothing happened" (the callers'
     theorems speak about successful calls) -/
@@ -309,4 +646,76 @@ theorem find_nil (w : P64.World) (add rem : GoSlice (BitVec 8)) (target : P64.En
   simp [bind, Option.bind]
 
 end
+
+/-! ### the hypotheses are satisfiable: a graph store with masks and edges as maps -/
+
+structure DemoExt where
+  masks : Nat → M64.Mask
+  nxt : Nat
+  edges : Option Nat → BitVec 8 → Option Nat × Bool
+
+def dMask (e : DemoExt) (n : Option Nat) : M64.Mask := match n with | some i => e.masks i | none => default
+def dGet (e : DemoExt) (n : Option Nat) (id : BitVec 8) : Option Nat × Bool := e.edges n id
+noncomputable def dSet (e : DemoExt) (n : Option Nat) (id : BitVec 8) (m : Option Nat) : DemoExt × Unit :=
+  open Classical in ({ e with edges := fun k j => if k = n ∧ j = id then (m, true) else e.edges k j }, ())
+def dKnown (e : DemoExt) (n : Option Nat) : Prop := ∃ i, n = some i ∧ i < e.nxt
+noncomputable def dNew (e : DemoExt) (w : P64.World) (mask : M64.Mask) (_r : BitVec 8) (_hr : Bool) : DemoExt × P64.World × Option Nat :=
+  open Classical in ({ e with masks := fun i => if i = e.nxt then mask else e.masks i, nxt := e.nxt + 1 }, w, some e.nxt)
+def dPagedGet (_e : DemoExt) (_tok : Nat) (i : BitVec 32) : Option Nat := some i.toNat
+def dPagedLen (e : DemoExt) (_tok : Nat) : BitVec 32 := BitVec.ofNat 32 e.nxt
+
+theorem graphOk_demo : GraphOk dNew dMask dGet dSet dPagedGet dPagedLen dKnown where
+  set_mask := by intro e n id m k; rfl
+  set_get := by intro e n id m k j _; simp only [dGet, dSet]
+  set_known := by intro e n id m k; rfl
+  new_mask := by intro e w mask r hr; simp [dMask, dNew]
+  new_known := by
+    intro e w mask r hr k
+    simp only [dKnown, dNew]
+    constructor
+    · rintro ⟨i, rfl, hi⟩
+      by_cases h : i = e.nxt
+      · right; rw [h]
+      · left; exact ⟨i, rfl, by omega⟩
+    · rintro (⟨i, rfl, hi⟩ | h)
+      · exact ⟨i, rfl, by omega⟩
+      · exact ⟨e.nxt, h, by omega⟩
+  new_keeps := by
+    rintro e w mask r hr k ⟨i, rfl, hi⟩
+    have : i ≠ e.nxt := by omega
+    simp [dMask, dNew, this]
+  new_inv := by
+    intro e w mask r hr hE hC
+    constructor
+    · intro n id m hedge
+      have hedge' : dGet e n id = (m, true) := hedge
+      obtain ⟨⟨i, rfl, hi⟩, ⟨j, rfl, hj⟩⟩ := hC n id m hedge'
+      have h1 : i ≠ e.nxt := by omega
+      have h2 : j ≠ e.nxt := by omega
+      have := hE _ _ _ hedge'
+      simpa [dMask, dNew, h1, h2] using this
+    · intro n id m hedge
+      have hedge' : dGet e n id = (m, true) := hedge
+      obtain ⟨⟨i, hn, hi⟩, ⟨j, hm, hj⟩⟩ := hC n id m hedge'
+      exact ⟨⟨i, hn, by simp only [dNew]; omega⟩, ⟨j, hm, by simp only [dNew]; omega⟩⟩
+  paged_known := by
+    intro e w i hi
+    refine ⟨(BitVec.ofNat 32 i).toNat, rfl, ?_⟩
+    simp only [dPagedLen] at hi
+    have h1 : (BitVec.ofNat 32 i).toNat ≤ i := by simp only [BitVec.toNat_ofNat]; exact Nat.mod_le _ _
+    have h2 : (BitVec.ofNat 32 e.nxt).toInt.toNat ≤ e.nxt := by
+      have : (BitVec.ofNat 32 e.nxt).toInt ≤ ((BitVec.ofNat 32 e.nxt).toNat : Int) := by
+        rw [BitVec.toInt_eq_toNat_cond]; split <;> omega
+      have h3 : (BitVec.ofNat 32 e.nxt).toNat ≤ e.nxt := by simp only [BitVec.toNat_ofNat]; exact Nat.mod_le _ _
+      omega
+    omega
+
+/-- a graph of one known node without edges satisfies the invariants -/
+example : EdgeInv dMask dGet ⟨fun _ => default, 1, fun _ _ => (none, false)⟩ ∧
+    Closed dGet dKnown ⟨fun _ => default, 1, fun _ _ => (none, false)⟩ ∧
+    dKnown ⟨fun _ => default, 1, fun _ _ => (none, false)⟩ (some 0) := by
+  refine ⟨?_, ?_, ⟨0, rfl, by decide⟩⟩
+  · intro n id m h; simp [dGet] at h
+  · intro n id m h; simp [dGet] at h
+
 end Arche.Props.C01_FindGen64
